@@ -101,10 +101,15 @@ def caches() -> dict:
     return out
 
 
+RESET_HOOKS: list = []      # state the harness itself keeps across calls (long-lived Finder objects of a history)
+
+
 def reset(keep_path_config: bool = True):
     """Cold caches. get_path_config is kept by default: PathConfig() rewrites its module's templates in
     place and registers a Resolver, re-creating it is a configuration reload, not a cache miss."""
     import resolva
+    for h in RESET_HOOKS:
+        h()
     for n, c in caches().items():
         if keep_path_config and n.endswith("get_path_config"):
             continue
